@@ -675,6 +675,12 @@ class Discharger:
                     (x.kind == 'call' and x.data.get('local') and x.data['name'] == 'run_ping_waker' and fieldname == 'ping_sender'):
                 if not becomes or not entails(x.pc, Or(*becomes))[0]:
                     ok = False
+                # ... and nothing on a path through the take withdraws it again: a connection that is left
+                # unregistered (433) must still own its once-only resources for the next attempt
+                for y in wa.events:
+                    if y.kind == 'assign' and not y.data.get('init') and y.data['lhs'] == ('field', USTATE, 'authenticated') and y.seq > x.seq \
+                            and sat(And(x.pc, y.pc, Not(sym.as_formula(y.data['rhs'])))) is not None:
+                        ok = False
         setattr(self, key, ok)
         return ok
 
